@@ -212,7 +212,12 @@ def main():
             if params:
                 cmd += ["-p", ",".join("%s=%d" % kv for kv in params.items())]
             cmd += run.get("flags", {}).get(tier, [])
-            r = subprocess.run(cmd, capture_output=True, text=True, env=goenv())
+            limit = int(os.environ.get("VERIF_RUN_TIMEOUT", "2400" if tier == "quick" else "28800"))
+            try:
+                r = subprocess.run(cmd, capture_output=True, text=True, env=goenv(), timeout=limit)
+            except subprocess.TimeoutExpired:
+                engine_errors.append("run %d (%s): exceeded the %d s limit" % (ri, run.get("run"), limit))
+                continue
             if r.returncode != 0 or not os.path.exists(out):
                 engine_errors.append("run %d: exit %d: %s" % (ri, r.returncode, r.stderr[-1500:]))
                 continue
